@@ -164,6 +164,12 @@ def fixed_programs():
                                                              [["Q", "prov", PROVU, "activity"], ["str", "ex:a"]], [["S", "ex:k"], ["int", "2"]]]],
               ["NewRecord", c, "Usage", "none", [[["Q", "prov", PROVU, "activity"], ["str", "ex:a"]], [["Q", "prov", PROVU, "entity"], ["str", "ex:undeclared"]]]]]
         out.append(p)
+    # a bundle that re-declares the prefix (and the default namespace) through which its own identifier was given
+    out.append([["NewDoc"], ["AddNs", ["d", "0"], "ex", EXU], ["SetDefault", ["d", "0"], "http://default.test/"],
+                ["NewBundle", "0", ["S", "ex:b"]], ["AddNs", ["b", "0", "0"], "ex", "http://other.org/"],
+                ["NewRecord", ["b", "0", "0"], "Entity", ["S", "ex:e"], []],
+                ["NewBundle", "0", ["S", "b2"]], ["SetDefault", ["b", "0", "1"], "http://d2.test/"],
+                ["NewRecord", ["b", "0", "1"], "Entity", ["S", "e2"], [[["S", "ex:k"], ["str", "v"]]]]])
     # unified() raises on this one (two activities ex:a with different start times): exporters that fall back to the
     # original document must still leave it alone
     out.append([["NewDoc"], ["AddNs", ["d", "0"], "ex", EXU],
